@@ -47,6 +47,13 @@ func CopyLogs(ctx context.Context, dst, src raft.LogStore, batchBytes int, progr
 		return fmt.Errorf("failed getting last index: %w", err)
 	}
 
+	if first == 0 && last == 0 {
+		// An empty LogStore reports 0 for both. There is nothing to copy, and
+		// the loop below would try to read the non-existent index 0.
+		update("DONE: source log is empty, nothing to copy")
+		return nil
+	}
+
 	batch := make([]*raft.Log, 0, 4096)
 	batchSize := 0
 	n := 0
